@@ -388,11 +388,14 @@ func TestC14(t *testing.T) {
 
 	// ---- the same for the handler on the other side: a client's OnCallback handler answering a
 	// server Callback. Raw peer first (what is on the wire), then a real server.
-	for _, m := range []string{"bad", "badch", "nan", "rawbad", "rawtrunc", "rawptr", "marshaler", "e"} {
+	for _, m := range []string{"bad", "badch", "nan", "rawbad", "rawtrunc", "rawptr", "marshaler", "e", "epct"} {
 		res.Case("callback-unmarshalable:"+m, true, m)
 		onCB := func(cctx context.Context, req *jrpc2.Request) (any, error) {
 			if req.Method() == "e" {
 				return nil, &jrpc2.Error{Code: 7, Message: "cb failed", Data: json.RawMessage(`[1]`)}
+			}
+			if req.Method() == "epct" { // a message with format verbs in it, and data that cannot be encoded
+				return nil, &jrpc2.Error{Code: 7, Message: "disk 100% full (%d of %s) %!", Data: json.RawMessage(`{"a":`)}
 			}
 			return c14mux[req.Method()](cctx, req)
 		}
@@ -412,8 +415,10 @@ func TestC14(t *testing.T) {
 			res.Violatef("callback handler: malformed reply on the wire", m, "method %s: reply %q err %v", m, reply, rerr)
 		} else if obj.Error == nil || obj.Error.Code == nil || obj.Error.Message == nil || obj.Result != nil || string(obj.ID) != "41" {
 			res.Violatef("callback handler: unmarshalable result (or error) did not become an error reply", m, "method %s: reply %s", m, reply)
-		} else if m == "e" && *obj.Error.Code != 7 {
+		} else if (m == "e" || m == "epct") && *obj.Error.Code != 7 {
 			res.Violatef("callback handler: *Error code changed", m, "reply %s", reply)
+		} else if m == "epct" && *obj.Error.Message != "disk 100% full (%d of %s) %!" {
+			res.Violatef("callback handler: *Error message changed", m, "reply %s", reply)
 		}
 		peer.Close()
 		cl.Close()
@@ -439,6 +444,8 @@ func TestC14(t *testing.T) {
 				res.Violatef("callback handler: malformed or missing reply", m, "method %s: %v", m, err)
 			} else if m == "e" && (je.Code != 7 || je.Message != "cb failed" || !jsonEqual(je.Data, []byte(`[1]`))) {
 				res.Violatef("callback handler: *Error code/message/data changed", m, "%+v", je)
+			} else if m == "epct" && (je.Code != 7 || je.Message != "disk 100% full (%d of %s) %!") {
+				res.Violatef("callback handler: *Error code/message changed", m, "%+v", je)
 			}
 		case <-time.After(5 * time.Second):
 			res.Violatef("callback handler: Callback never returned", m, "method %s", m)
